@@ -141,6 +141,10 @@ func main() {
 	exact := flag.Bool("exactfmt", false, "render %d of symbolic integers exactly (digit variables) instead of opaquely")
 	summ := flag.String("summary", "", "comma separated summaries to enable (vaaid = (*VAAID).Bytes as an injective encoding of its fields)")
 	flag.Parse()
+	if flag.NArg() > 0 {
+		fmt.Fprintf(os.Stderr, "symgo: unexpected arguments %v (flags after them would be ignored)\n", flag.Args())
+		os.Exit(3)
+	}
 	for _, x := range strings.Split(*summ, ",") {
 		if x != "" {
 			summaries[x] = true
@@ -406,14 +410,26 @@ func main() {
 		}
 		// translator validation: replay up to -witness passing paths natively
 		wdone := 0
+		if os.Getenv("SYMGO_LOG") != "" {
+			fmt.Printf("   witness: want %d, done states %d, violations %d\n", *witnessN, len(e.done), len(e.violations))
+		}
+		newViolations := 0
+		for _, v := range e.violations {
+			if v.Known == "" {
+				newViolations++
+			}
+		}
 		for _, st := range e.done {
-			if wdone >= *witnessN || len(e.violations) > 0 {
+			if wdone >= *witnessN || newViolations > 0 {
 				break
 			}
 			if st.status != Finished || len(st.reached) == 0 {
 				continue
 			}
 			if r := solver.Check(st.pc); r != Sat {
+				if os.Getenv("SYMGO_LOG") != "" {
+					fmt.Printf("   witness: path %d not usable (path condition check = %v)\n", st.id, r)
+				}
 				continue
 			}
 			model := solver.Values(TS.vars)
